@@ -19,6 +19,7 @@ ENGINE = "tasks"
 LEVEL = "exploration"
 TECHNIQUE = "deterministic simulation: seeded registration/removal/firing histories on a real ReactorBase vs ordered-phase reference model"
 QUICK_RUNS = 100000
+TWIN_P = 0.08   # this share of the runs drives two independent instances of the scenario one after the other (detsim.runner._run_scenario)
 BATCH = 300
 RUN_WALL_LIMIT_S = 120   # runs take milliseconds; generous because whole-machine stalls >20 s were seen under load
 COMPONENTS = {"real": ["twisted.internet.base.ReactorBase.addSystemEventTrigger/removeSystemEventTrigger/fireSystemEvent",
